@@ -119,6 +119,7 @@ func runShutdown(t *testing.T, out *vfh.Out, terminate bool, evs []advEvent, tc 
 			}
 		}
 		out.Line(c.String(), impl.String())
+		out.Flush()
 	})
 }
 
